@@ -118,6 +118,9 @@ func (x Expr) set(data, value any, fun string, one bool) error {
 			case map[string]any:
 				if int(fi) == len(x)-1 { // last one
 					if value == delFlag {
+						if _, has = tv[string(tf)]; !has {
+							break // nothing to delete here, not the one
+						}
 						delete(tv, string(tf))
 					} else {
 						tv[string(tf)] = value
@@ -164,6 +167,9 @@ func (x Expr) set(data, value any, fun string, one bool) error {
 			case Keyed:
 				if int(fi) == len(x)-1 { // last one
 					if value == delFlag {
+						if _, has = tv.ValueForKey(string(tf)); !has {
+							break // nothing to delete here, not the one
+						}
 						tv.RemoveValueForKey(string(tf))
 					} else {
 						tv.SetValueForKey(string(tf), value)
@@ -210,6 +216,9 @@ func (x Expr) set(data, value any, fun string, one bool) error {
 			case gen.Object:
 				if int(fi) == len(x)-1 { // last one
 					if value == delFlag {
+						if _, has = tv[string(tf)]; !has {
+							break // nothing to delete here, not the one
+						}
 						delete(tv, string(tf))
 					} else {
 						tv[string(tf)] = nodeValue
@@ -757,6 +766,9 @@ func (x Expr) set(data, value any, fun string, one bool) error {
 					case map[string]any:
 						if int(fi) == len(x)-1 { // last one
 							if value == delFlag {
+								if _, has = tv[tu]; !has {
+									break // nothing to delete here, not the one
+								}
 								delete(tv, tu)
 							} else {
 								tv[tu] = value
@@ -784,6 +796,9 @@ func (x Expr) set(data, value any, fun string, one bool) error {
 					case Keyed:
 						if int(fi) == len(x)-1 { // last one
 							if value == delFlag {
+								if _, has = tv.ValueForKey(tu); !has {
+									break // nothing to delete here, not the one
+								}
 								tv.RemoveValueForKey(tu)
 							} else {
 								tv.SetValueForKey(tu, value)
@@ -811,6 +826,9 @@ func (x Expr) set(data, value any, fun string, one bool) error {
 					case gen.Object:
 						if int(fi) == len(x)-1 { // last one
 							if value == delFlag {
+								if _, has = tv[tu]; !has {
+									break // nothing to delete here, not the one
+								}
 								delete(tv, tu)
 							} else {
 								tv[tu] = nodeValue
